@@ -50,6 +50,38 @@ def run(ctx, texts, tag="acc"):
     return recs, stats
 
 
+def run_chain(ctx, texts, tag="accch"):
+    """Composition check (text -> I5 entirely inside the model): model `tree` -> model `accessors`
+    against impl `ast`.  Escape-sequence diagnostics of string literals are not modelled by the
+    tree model (Model/Validation.lean), so those cases are skipped."""
+    from . import pipeline as PL
+    lines = [G.enc(t) for t in texts]
+    ucpath, _ = G.uclass_table(ctx, texts, C)
+    itree = C.run_impl(ctx, "tree", lines, tag=tag + "-itree")
+    ast = C.run_impl(ctx, "ast", lines, tag=tag + "-iast")
+    mtree = C.run_model(ctx, ["tree", ucpath], lines, tag=tag + "-mtree")
+    model = C.run_model(ctx, "accessors", mtree, tag=tag + "-macc")
+    stats = collections.Counter()
+    bad = []
+    for i, t in enumerate(texts):
+        a, m = ast[i], model[i]
+        if a.startswith(("PANIC", "CRASH")) or itree[i].startswith(("PANIC", "CRASH")):
+            stats["impl-panicked (skipped)"] += 1
+            continue
+        f = PL.fields(itree[i])
+        if any(x.split(":", 1)[1].startswith(PL.UNESCAPE_MSGS) for x in f.get("clerrors", "").split(",") if x):
+            stats["escape diagnostics (skipped)"] += 1
+            continue
+        if a == m:
+            stats["agree"] += 1
+        else:
+            stats["disagree"] += 1
+            bad.append({"text": t, "impl": a, "model": m})
+            if len(ctx.corr_disagreements) < 20:
+                ctx.corr_disagreements.append({"layer": "I0..I5 chain", "case": t, "impl": a[:600], "model": m[:600]})
+    return bad, stats
+
+
 def first_diff(a, b):
     n = min(len(a), len(b))
     for i in range(n):
@@ -107,6 +139,7 @@ def _main():
     ap.add_argument("--seed", type=int, default=1)
     ap.add_argument("--gen", default="both")
     ap.add_argument("--show", type=int, default=5)
+    ap.add_argument("--chain", action="store_true", help="also run text -> model tree -> model accessors")
     a = ap.parse_args()
     if os.environ.get("OQ3_ACC_DRIVER"):      # a driver binary built elsewhere (development)
         C.DRIVER = os.environ["OQ3_ACC_DRIVER"]
@@ -140,6 +173,15 @@ def _main():
                     print("     impl :", r["impl"][max(0, d - 80):d + 120])
                     print("     model:", r["model"][max(0, d - 80):d + 120])
         total.update(stats)
+        if a.chain:
+            cbad, cstats = run_chain(ctx, texts, tag="accch-" + name.split()[0])
+            print("   chain (model tree -> model accessors vs impl ast):", dict(cstats))
+            for r in cbad[:a.show]:
+                d = first_diff(r["impl"], r["model"])
+                print("   CHAIN-DISAGREE", repr(r["text"][:300]))
+                print("     impl :", r["impl"][max(0, d - 80):d + 120])
+                print("     model:", r["model"][max(0, d - 80):d + 120])
+            bad += len(cbad)
     print("TOTAL", dict(total))
     sys.exit(1 if bad else 0)
 
